@@ -96,6 +96,13 @@ def generate(batch: str, r: Rng, idx: int, tier: str) -> Dict[str, Any]:
     # keyboard interrupts switched off in a quarter of the machines: a configuration flag that must survive too
     scn["kb"] = dict(scn.get("kb") or {})
     scn["kb"]["kb_irq"] = bool(r.child("kbirq").chance(3, 4))
+    # constructor arguments a restarted emulator is given again (same values): they must not leak into restored state
+    rcx = r.child("ctor")
+    if executor == "py-machine" and rcx.chance(1, 3):
+        scn["ctor"] = {"timer_scale": rcx.choice([0.5, 2.0, 0.25, 3.0])}
+    # the whole flag byte, not only C and Z: firmware can load F from the stack (POPU F, a hand-built RETI frame)
+    if rcx.chance(1, 2):
+        scn["regs"]["F"] = rcx.below(256)
     scn["crashes"] = None
     scn["crash_seed"] = r.child("crash").u64()
     scn["n_crashes"] = 2 if executor == "py-machine" else 3
